@@ -21,6 +21,7 @@ BRIDGES = {   # kind -> (class, generated module, bridge module)
     "lfu": ("lfu_cache", "GenLfu", "LfuBridge"),
     "lfuda": ("lfuda_cache", "GenLfuda", "LfudaBridge"),
     "tlru": ("tlru_cache", "GenTlru", "TlruBridge"),
+    "utlru": ("utlru_cache", "GenUtlru", "UtlruBridge"),
     "ut_map": ("ut_map", "GenUtMap", "UtMapBridge"),
     "ut_set": ("ut_set", "GenUtSet", "UtSetBridge"),
 }
